@@ -61,6 +61,8 @@ fn prefixes() -> Vec<Vec<G>> {
         vec![G::PlusZ(x.clone(), y.clone(), z.clone()), G::Probe(1)],
         vec![G::InFd(vec![x.clone(), y.clone()], Dom::Range(0, 3)), G::Fd(FdKind::Plus, vec![x.clone(), y.clone(), z.clone()]), G::InFd(vec![z.clone()], Dom::Range(2, 4))],
         vec![G::Eq(x.clone(), T::I(1)), G::InFd(vec![y.clone()], Dom::Range(0, 3))],
+        // a stored constraint plus bindings that some branch goals merely re-state
+        vec![G::Neq(z.clone(), T::I(7)), G::Eq(x.clone(), T::I(1)), G::Eq(y.clone(), T::I(1))],
     ]
 }
 
@@ -116,6 +118,23 @@ fn observe(body: &[G]) -> Result<Obs, End> {
             Ok(out)
         }
         Ok(e) | Err(e) => Err(e),
+    }
+}
+
+/// The same observation through the public query interface with the library's DefaultUser (its
+/// default hooks, which the instrumented user type overrides).
+fn observe_default(body: &[G]) -> Result<Obs, End> {
+    use crate::run::{DE, DU};
+    let noop = || -> ProbeFn<DU, DE> { Rc::new(|_env, st: State<DU, DE>| Some(st)) };
+    let p = Program { nq: 3, body: body.to_vec() };
+    let out = crate::run::run_query_with::<DU, DE>(3, &p, proto_vulcan::user::DefaultUser::new(), (), 300, 3_000_000, vec![noop(), noop()]);
+    match out.end {
+        End::Exhausted => {
+            let mut v: Vec<String> = out.answers.iter().map(|a| a.to_string()).collect();
+            v.sort();
+            Ok(v)
+        }
+        other => Err(other),
     }
 }
 
@@ -252,13 +271,35 @@ fn check(c: &CaseC10, index: usize, d: usize) -> (Vec<Violation>, u64, bool) {
             Err(other) => viols.push(mk("no-termination", format!("{:?}", other), String::new())),
         }
     }
-    (viols, ex.schedules + c.branches.len() as u64, nontrivial)
+    // the same comparison with DefaultUser through the public iterator (canonical schedule)
+    let mut exp_d: Vec<String> = vec![];
+    let mut alone_ok = true;
+    for i in 0..c.branches.len() {
+        match observe_default(&c.alone(i)) {
+            Ok(o) => exp_d.extend(o),
+            Err(_) => alone_ok = false,
+        }
+    }
+    exp_d.sort();
+    if alone_ok {
+        let mk = |kind: &str, detail: String, site: String| Violation { kind: kind.into(), sig: sig.clone(), site, detail, family: "c10".into(), index, schedule: vec![], data: Value::Null };
+        match observe_default(&body) {
+            Ok(got) => {
+                if got != exp_d {
+                    viols.push(mk("branches-interfere", format!("with DefaultUser: combined run {:?}; the branches alone {:?}", got, exp_d), String::new()));
+                }
+            }
+            Err(End::Panic(m)) => viols.push(mk("panic-only-combined", format!("with DefaultUser: {}", m), panic_site(&m))),
+            Err(other) => viols.push(mk("no-termination", format!("with DefaultUser: {:?}", other), String::new())),
+        }
+    }
+    (viols, ex.schedules + 2 * c.branches.len() as u64 + 1, nontrivial)
 }
 
 pub fn run(ctx: &mut Ctx) {
     let quick = ctx.quick();
     let d = if quick { 0 } else { 1 };
-    ctx.set("rule", json!("E3 metamorphic x E2: for 7 prefixes (none, FD domains, distinctfd over three variables, disequalities, a CLP(Z) constraint with a user-state update, an FD sum, a binding) and every ordered pair (and a stride of triples, flat and nested) of 24 branch goals, alone and followed by one of 4 shared continuations (a closure whose body projects x, a doubly delayed binding, domains + distinctfd over all three variables, a closure around a disjunction of a project and a disequality) that the states of both branches enter (bindings, disequalities, domain narrowing, FD propagators incl. distinctfd whose shared constraint object is updated on binding, CLP(Z), user-state updates through fngoal, nested conde, project, fail): the multiset of final states of `prefix, conde { A, B }` (reified query terms, reported disequalities, the per-branch user trail and the open-constraint counter of an instrumented User) equals the union of the branches run alone from the same prefix. distinct_nontrivial = cases with >= 2 combined answers."));
+    ctx.set("rule", json!("E3 metamorphic x E2: for 7 prefixes (none, FD domains, distinctfd over three variables, disequalities, a CLP(Z) constraint with a user-state update, an FD sum, a binding) and every ordered pair (and a stride of triples, flat and nested) of 24 branch goals, alone and followed by one of 4 shared continuations (a closure whose body projects x, a doubly delayed binding, domains + distinctfd over all three variables, a closure around a disjunction of a project and a disequality) that the states of both branches enter (bindings, disequalities, domain narrowing, FD propagators incl. distinctfd whose shared constraint object is updated on binding, CLP(Z), user-state updates through fngoal, nested conde, project, fail): the multiset of final states of `prefix, conde { A, B }` (reified query terms, reported disequalities, the per-branch user trail and the open-constraint counter of an instrumented User) equals the union of the branches run alone from the same prefix; the same comparison is repeated through the public iterator with the library's DefaultUser (its default hooks). distinct_nontrivial = cases with >= 2 combined answers."));
     ctx.set("deviation_bound", json!(d));
     let cs = cases(quick);
     let sel: Vec<usize> = match &ctx.replay {
